@@ -74,7 +74,41 @@ class LoadOnly(_Rec):
         LOG.append(('on_world_load', self, a))
 
 
-COMPONENT_TYPES = ['PlainA', 'PlainB', 'HandlerA', 'HandlerB', 'LoadOnly']
+class _Ctl(desper.Controller):
+    def __init__(self, *args, **kwargs):
+        _maybe_fail()
+        self.args = args
+        self.kwargs = kwargs
+
+    def __repr__(self):
+        return '<%s %s>' % (type(self).__name__, self.kwargs.get('tag'))
+
+    def on_add(self, entity, world):
+        super().on_add(entity, world)
+        LOG.append(('on_add', self, (entity, world)))
+
+
+# two sibling controllers, each adding ONE event of its own to what desper.Controller declares and defining only
+# that callback (the usual way game code is written)
+@desper.event_handler('on_world_load')
+class CtlLoad(_Ctl):
+    def on_world_load(self, *a):
+        LOG.append(('on_world_load', self, a))
+
+
+@desper.event_handler('on_update')
+class CtlUpdate(_Ctl):
+    def on_update(self, *a):
+        LOG.append(('on_update', self, a))
+
+
+COMPONENT_TYPES = ['PlainA', 'PlainB', 'HandlerA', 'HandlerB', 'LoadOnly', 'CtlLoad', 'CtlUpdate']
+# roots under which every component type above is found by World.get
+QUERY_ROOTS = (PlainA, PlainB, HandlerA, LoadOnly, CtlLoad, CtlUpdate)
+# what each type DECLARES, written down here (never read back from __events__)
+DECLARED_EVENTS = {'PlainA': None, 'PlainB': None, 'HandlerA': ('on_add', 'on_world_load'),
+                   'HandlerB': ('on_add', 'on_world_load'), 'LoadOnly': ('on_world_load',),
+                   'CtlLoad': ('on_add', 'on_world_load'), 'CtlUpdate': ('on_add', 'on_update')}
 
 
 class _Proc(desper.Processor):
